@@ -1411,7 +1411,8 @@ Qed.
    again and storable at once); FaultBound.v for every start state and every variant of
    store_object / tag_object (the pid is never half-bound: its reference files are as before the
    call, or it is completely unbound).
-   MISSING: (F2) when the flock itself fails; the retry ("can be stored again at once") for a pid
+   (F2) when the flock itself fails: FlockFaults.fault_returns_no_lock_any (no [noflock]).
+   MISSING: the retry ("can be stored again at once") for a pid
    that was bound, and for store_object with a stream source or supplied size / checksum (menu only;
    (F4) is FALSE for persistent faults, witness above); the follow-up clauses of [fault_outcome_ok]. *)
 Theorem C13_general_partial :
